@@ -19,7 +19,7 @@ func init() {
 	mc.Register(&mc.Property{
 		ID:    "C18",
 		Title: "Editor analysis survives any text",
-		Rule: "the C14 text space (generator scripts, every truncation, every token deletion / duplication / insertion / replacement over the 46-entry alphabet, all token soups up to length L), each analysed with CheckSource, GetSymbols, and HoverOn + GotoDefinition at EVERY position (every line, every character 0..len+1); " +
+		Rule: "the C14 text space (generator scripts, every truncation, every token deletion / duplication / insertion / replacement over the 52-entry alphabet, all token soups up to length L), each analysed with CheckSource, GetSymbols, and HoverOn + GotoDefinition at EVERY position (every line, every character 0..len+1); " +
 			"oracle: no panic; every diagnostic starts inside the text or at its end and does not end before it starts; analysing the same text again yields the same SET of diagnostics and symbols (map-iteration orders are additionally permuted exhaustively by the instrumented C11 build's map-order seam, see DESIGN 3.4); " +
 			"non-trivial = the text was edited / is a soup; distinct = the text",
 		Assumptions: []string{"set equality of diagnostics is judged on (range, severity, message)"},
@@ -151,7 +151,7 @@ func c18MapOrder(w *mc.Worker) {
 	w.Stage(fmt.Sprintf("map-order-P%d", budget), fmt.Sprintf("variable-rich generator scripts of weight <= %d and their single name edits: CheckSource + GetSymbols under every map iteration order (<= 4 keys, <= %d non-identity picks)", weight, budget), func() {
 		g := &Full{MaxStmts: 2, Depth: 1, VarsFree: true}
 		sawPoint := false
-		w.Outer("map-order/script", weight, func(o *mc.Explorer) {
+		w.Outer(fmt.Sprintf("map-order-P%d/script", budget), weight, func(o *mc.Explorer) {
 			prog := g.Program(o)
 			if len(prog.Vars) < 2 {
 				return
